@@ -106,6 +106,9 @@ def owner_layout(chk, ex, cls, found):
     exactly the bytes of its array (so that the kernels' operands never alias); returns
     (oref, ost, of, shm, size) or None"""
     name = cls
+    if ("layout", cls) in chk.done:
+        return chk.layouts.get(cls) if hasattr(chk, "layouts") else None
+    chk.done.add(("layout", cls))
     a, owners, _ = _glue.good_objects(ex, cls, "o", shared=True)
     _wrappers.row(chk, name + ":shared-constructor-succeeds", bool(owners), None, found)
     if not owners:
@@ -116,6 +119,9 @@ def owner_layout(chk, ex, cls, found):
         # hand back their argument or a copy of it)
         r = _owner_layout_path(chk, ex, cls, name if ci == 0 else "%s[constructor path %d]" % (name, ci), a, oref, ost, found)
         first = first if first is not None else r
+    if not hasattr(chk, "layouts"):
+        chk.layouts = {}
+    chk.layouts[cls] = first
     return first
 
 
@@ -258,6 +264,9 @@ def _attached_path(chk, ex, cls, name, o, eff, pref, of, ost, oref, shm, size, f
 
 def _attach_helper(chk, ex, cls, name, of, ost, size, found):
     # helpers.attach_shared_memory rebuilds the sketch from the owner's args and attaches it
+    if ("attach-helper", cls) in chk.done:
+        return
+    chk.done.add(("attach-helper", cls))
     if True:
         kind = {"HyperLogLog": "hll", "HeavyHitters": "hh"}.get(cls, "cms")
         fn = ex.func("helpers", "attach_shared_memory")
@@ -377,10 +386,10 @@ def oracle(chk):
     return None
 
 
-def attach_helper_part(chk, ex, found):
+def attach_helper_part(chk, ex, found, classes=None):
     """helpers.attach_shared_memory rebuilds a sketch with provably the parameters of the owner it is
     attached to, for every class (used by C08: the workers see the parent's sketches through it)"""
-    for cls in ARRAYS:
+    for cls in (classes or ARRAYS):
         try:
             lay = owner_layout(chk, ex, cls, found)
             if lay is None:
@@ -395,6 +404,9 @@ def loaded_shared(chk, ex, cls, found):
     """load(file, shared_memory=True) is another way to create a shared sketch: after it returns,
     the tables of the new sketch are (still) the views of the block it owns"""
     name = cls + ".load(shared_memory=True)"
+    if ("loaded-shared", cls) in chk.done:
+        return
+    chk.done.add(("loaded-shared", cls))
     a, objs, _ = _glue.good_objects(ex, cls, "ls")
     if not objs:
         return
